@@ -829,7 +829,8 @@ pub fn run_c08(o: &Opts) -> Report {
                     let chars = real_parse_chars(fm.e, &s);
                     let multi = real_multi(fm.e, &hs);
                     cx.rep.evaluations += 3;
-                    let shown = format!("[{}] a text of exactly {} characters: {:?} ...", fm.name, len, s.chars().take(40).collect::<String>());
+                    let shape = ["blanks behind", "blanks in front", "blanks after the copula", "one long subject name", "a product of one-letter components as subject"][how];
+                    let shown = format!("[{}] a text of exactly {} characters ({}): {:?} ... {:?}", fm.name, len, shape, s.chars().take(24).collect::<String>(), s.chars().skip(len.saturating_sub(16)).collect::<String>());
                     if canon_pr(&chars) != canon_pr(&alone) {
                         cx.fail("size-thresholds", "parse_chars differs from parse", shown.clone(), canon_pr(&alone).chars().take(80).collect(), canon_pr(&chars).chars().take(80).collect(), None);
                     }
